@@ -159,7 +159,9 @@ func downgrade(t *rapid.T, f M, version string) []string {
 			if vLess(version, "13.6.0") && a["type"] == "set_run_result" && rapid.IntRange(0, 2).Draw(t, "longname") == 0 {
 				a["name"] = strings.Repeat("Long Result Name ", 5) + "x"
 				if _, ok := a["category"]; ok {
-					a["category"] = strings.Repeat("Very long category ", 3)
+					// over-long in characters (truncated by 13.6), in ASCII or in multi-byte letters; or within the limit in
+					// characters but not in bytes
+					a["category"] = rapid.SampledFrom([]string{strings.Repeat("Very long category ", 3), strings.Repeat("Очень длинная категория ", 3), "Категория результата номер двадцать", strings.Repeat("日本語のカテゴリ", 6)}).Draw(t, "longcategory")
 				}
 				feats = append(feats, "long-names")
 			}
